@@ -1,14 +1,1181 @@
-//! Special-purpose generators and commands (scale families, ordering matrices, threads).
+//! Special-purpose generators and commands: directed families, relational oracles, scale
+//! families, ordering matrices, threads.
 
+use crate::dump::{hex, unhex};
 use crate::gen::Case;
 use crate::queries::Rng;
+use roxmltree::{Document, Node, NodeId, ParsingOptions};
+use std::fmt::Write as _;
+use std::io::{BufRead, Write};
 
-pub fn gen(name: &str, _rng: &mut Rng, _n: usize, _args: &[String]) -> Vec<Case> {
-    eprintln!("unknown generator {}", name);
-    std::process::exit(2);
+fn case(dtd: bool, text: String) -> Case {
+    Case { dtd, limit: u32::MAX, text: text.into_bytes() }
 }
 
-pub fn command(name: &str, _args: &[String]) {
-    eprintln!("unknown command {}", name);
-    std::process::exit(2);
+// ------------------------------------------------------------------------------------------
+// Directed generators (small inputs: implementation AND model run on them).
+
+/// Entity graphs: cycles, chains, fan-out x depth, empty entities, many top-level references.
+fn g_entities(rng: &mut Rng, n: usize) -> Vec<Case> {
+    let mut out = Vec::new();
+    let uses: [fn(&str) -> String; 4] = [
+        |r| format!("<a>{}</a>", r),
+        |r| format!("<a b='{}'/>", r),
+        |r| format!("<a>x{}y<b c=\"{}\">{}</b></a>", r, r, r),
+        |r| format!("<a b='p{}q' c='{}'>{}</a>", r, r, r),
+    ];
+    // cycles of length 1..=32 (n scales the maximum), entered from text / attribute /
+    // attribute of an element inside an entity; with and without an empty entity on the cycle
+    let maxc = n.min(32).max(1);
+    for len in 1..=maxc {
+        for variant in 0..4 {
+            let mut dtd = String::from("<!DOCTYPE a [<!ENTITY z ''>");
+            for k in 0..len {
+                let next = (k + 1) % len;
+                let body = match variant {
+                    0 => format!("&c{};", next),
+                    1 => format!("t&c{};", next),
+                    2 => format!("&z;&c{};", next),
+                    _ => format!("&z;&z;x&c{};&z;", next),
+                };
+                dtd.push_str(&format!("<!ENTITY c{} '{}'>", k, body));
+            }
+            dtd.push_str("<!ENTITY el '<e f=\"&c0;\"/>'>]>");
+            for u in &uses {
+                out.push(case(true, format!("{}{}", dtd, u("&c0;"))));
+            }
+            out.push(case(true, format!("{}<a>&el;</a>", dtd)));
+        }
+    }
+    // chains of length d (accepted up to 10) and fan-out f at depth d
+    for d in 1..=12usize {
+        for f in [1usize, 2, 3, 15, 16, 17, 254, 255, 256, 300] {
+            if f.pow(d.min(3) as u32) > 100_000 && d > 3 {
+                continue;
+            }
+            let mut dtd = String::from("<!DOCTYPE a [<!ENTITY e0 'v'>");
+            for k in 1..=d {
+                let refs: String = (0..if k == d { 1 } else { 1 }).map(|_| format!("&e{};", k - 1)).collect();
+                let _ = refs;
+                // level k references level k-1: f times at the top level only (keeps it small)
+                let times = if k == 1 { f } else { 1 };
+                let body: String = (0..times).map(|_| format!("&e{};", k - 1)).collect();
+                dtd.push_str(&format!("<!ENTITY e{} '{}'>", k, body));
+            }
+            dtd.push_str("]>");
+            for u in &uses[..2] {
+                out.push(case(true, format!("{}{}", dtd, u(&format!("&e{};", d)))));
+            }
+        }
+    }
+    // billion-laughs style: f^d with small f, d
+    for f in 2..=10usize {
+        for d in 2..=6usize {
+            let mut dtd = String::from("<!DOCTYPE a [<!ENTITY l0 'lol'>");
+            for k in 1..=d {
+                let body: String = (0..f).map(|_| format!("&l{};", k - 1)).collect();
+                dtd.push_str(&format!("<!ENTITY l{} '{}'>", k, body));
+            }
+            dtd.push_str("]>");
+            out.push(case(true, format!("{}<a>&l{};</a>", dtd, d)));
+            out.push(case(true, format!("{}<a b='&l{};'/>", dtd, d)));
+        }
+    }
+    // many references at depth zero
+    for m in [1usize, 10, 256, 300, 1000] {
+        let refs: String = (0..m).map(|_| "&t;").collect();
+        out.push(case(true, format!("<!DOCTYPE a [<!ENTITY t 'x'><!ENTITY z ''>]><a b='{}'>{}</a>", refs, refs)));
+        let refs: String = (0..m).map(|_| "&z;").collect();
+        out.push(case(true, format!("<!DOCTYPE a [<!ENTITY t 'x'><!ENTITY z ''>]><a b='{}&#10;'>{}&#13;</a><!--t-->", refs, refs)));
+    }
+    // entity values built from pieces (references to CR/LF/TAB next to literal line ends ...)
+    let alpha = ["x", "\r", "\n", "\t", "&#13;", "&#10;", "&#9;", "&#32;", "&lt;", "&amp;", "\u{e9}", "&z;", "<b/>"];
+    let seqs = crate::gen::enum_strings(if n >= 30 { 3 } else { 2 }, &alpha);
+    for (k, sq) in seqs.iter().enumerate() {
+        if n < 30 && k % 2 == 1 && rng.chance(1, 2) {
+            continue;
+        }
+        let attr_ok = !sq.contains('<');
+        let mut t = format!("<!DOCTYPE a [<!ENTITY z ''><!ENTITY v '{}'><!ENTITY w 'p&v;q'>]>", sq);
+        if attr_ok {
+            t.push_str("<a b='1&v;2' c='&w;' d='&#13;&v;\n'>k&v;l&w;</a>");
+        } else {
+            t.push_str("<a>k&v;l&w;m</a>");
+        }
+        out.push(case(true, t));
+    }
+    out
+}
+
+/// Entity values that are not balanced content: tags opened/closed across the entity boundary.
+fn g_entity_boundary(_rng: &mut Rng, _n: usize) -> Vec<Case> {
+    let values = [
+        "</a>", "<c/></a>", "<c></c></a>", "x</a>", "<!--k--></a>", "<c/></a><a>", "</a><a>", "<c>", "<c><d/>",
+        "<c", "<c d=\"e\"", "<c d=\"e\" ", "<c/", "</c>", "<c></d>", "</a></a>", "<c/></a><b/>", "<a>", "<c></c>",
+        "<c/>t</a>", "<?p?></a>", "<![CDATA[x]]></a>", "&n;</a>", "<c>&n;", "<c/>&m;", "</", "<", "<c></c",
+    ];
+    let docs = [
+        "<a>&e;</a>", "<a>&e;", "<a>&e;<b/>", "<a>&e;<b/></a>", "<a>x&e;y</a>", "<a><q>&e;</q></a>", "<a><q>&e;</a>",
+        "<a>&e;&e;</a>", "<a>&e;</a><a/>", "<a>&e;t<b/>", "<a><a>&e;</a>", "<a>&w;</a>", "<a>&w;<b/>",
+    ];
+    let mut out = Vec::new();
+    for v in values {
+        for d in docs {
+            out.push(case(
+                true,
+                format!("<!DOCTYPE a [<!ENTITY n '<z/>'><!ENTITY m '</a>'><!ENTITY e '{}'><!ENTITY w 'u&e;v'>]>{}", v, d),
+            ));
+        }
+    }
+    out
+}
+
+/// Exotic characters in every kind of construct (Unicode white space that is not XML white space,
+/// range edges of Char / NameStartChar / NameChar, BOM in the middle, ...).
+fn g_exotic(rng: &mut Rng, n: usize) -> Vec<Case> {
+    let chars = [
+        '\u{85}', '\u{a0}', '\u{1680}', '\u{2000}', '\u{2028}', '\u{2029}', '\u{202f}', '\u{205f}', '\u{3000}',
+        '\u{feff}', '\u{fffd}', '\u{d7ff}', '\u{e000}', '\u{fffe}', '\u{ffff}', '\u{10000}', '\u{10ffff}', '\u{effff}',
+        '\u{f0000}', '\u{b7}', '\u{2ff}', '\u{300}', '\u{36f}', '\u{370}', '\u{37e}', '\u{37f}', '\u{1fff}', '\u{2000}',
+        '\u{200b}', '\u{200c}', '\u{200d}', '\u{200e}', '\u{203f}', '\u{2040}', '\u{2041}', '\u{206f}', '\u{2070}',
+        '\u{218f}', '\u{2190}', '\u{2bff}', '\u{2c00}', '\u{2fef}', '\u{2ff0}', '\u{3001}', '\u{f8ff}', '\u{f900}',
+        '\u{fdcf}', '\u{fdd0}', '\u{fdef}', '\u{fdf0}', '\u{d6}', '\u{d7}', '\u{d8}', '\u{f6}', '\u{f7}', '\u{f8}',
+        '\u{c0}', '\u{bf}', '\u{7f}', '\u{80}', '\u{1}', '\u{8}', '\u{b}', '\u{c}', '\u{e}', '\u{1f}', ' ', '\t', '-', '.',
+        '0', ':', '_', 'A',
+    ];
+    let templates: [&str; 22] = [
+        "<?pi @x?><a/>", "<?pi x@?><a/>", "<?pi@ x?><a/>", "<?@pi x?><a/>", "<!--@x--><a/>", "<!--x@--><a/>",
+        "<a>@x</a>", "<a>x@</a>", "<a b='@x'/>", "<a b='x@'/>", "<@a/>", "<a@/>", "<a@b='c'/>", "<a @b='c'/>",
+        "<a b@='c'/>", "<p:a xmlns:p='u' p:b@c='d'/>", "<a><![CDATA[@]]></a>", "<a xmlns:p@='u'/>",
+        "<!DOCTYPE a [<!ENTITY e '@'>]><a b='&e;'>&e;</a>", "<!DOCTYPE @a><a/>", "<a>&@;</a>", "<a></a@>",
+    ];
+    let mut out = Vec::new();
+    for (k, t) in templates.iter().enumerate() {
+        for c in chars {
+            if n < 50 && (k + c as usize) % 3 != 0 && rng.chance(2, 3) {
+                continue;
+            }
+            out.push(case(t.contains("DOCTYPE"), t.replace('@', &c.to_string())));
+        }
+    }
+    out
+}
+
+/// Text and attribute values as piece sequences in every order and adjacency (C04 / C05),
+/// at first / middle / last position among siblings.
+fn g_pieces2(_rng: &mut Rng, n: usize, attr: bool) -> Vec<Case> {
+    let text_alpha = [
+        "x", "\r", "\n", "\t", "&#10;", "&#13;", "&#xD;", "&#9;", "&amp;", "&#xE9;", "\u{e9}", "&#x1F600;", "<![CDATA[\r]]>",
+        "<![CDATA[\n]]>", "<![CDATA[]]>", "&t;", "&z;", "&m;", "]]",
+    ];
+    let attr_alpha = [
+        "x", "\r", "\n", "\t", "&#10;", "&#13;", "&#xD;", "&#9;", "&amp;", "&#xE9;", "\u{e9}", "&t;", "&z;", "&n;", " ", "&lt;",
+    ];
+    let dtd = "<!DOCTYPE a [<!ENTITY z ''><!ENTITY t 'p\r\nq&#13;\n&#10;'><!ENTITY n '&t;\r'><!ENTITY m 'k<b/>\r'>]>";
+    let alpha: &[&str] = if attr { &attr_alpha } else { &text_alpha };
+    let mut out = Vec::new();
+    for m in crate::gen::enum_strings(n, alpha) {
+        let text = if attr {
+            format!("{}<a b='{}' xmlns:p=\"{}\" p:c=\"{}\"/>", dtd, m, m.replace('<', ""), m)
+        } else {
+            format!("{}<a>{}<c/>{}<!--k-->{}</a>", dtd, m, m, m)
+        };
+        out.push(case(true, text));
+    }
+    out
+}
+
+/// Namespace declaration patterns: exhaustive over small trees x declaration alphabets.
+fn g_ns(rng: &mut Rng, n: usize) -> Vec<Case> {
+    let decls = ["", "xmlns='u'", "xmlns='v'", "xmlns=''", "xmlns:p='u'", "xmlns:p='v'", "xmlns:q='u'", "xmlns:p='u' xmlns:q='u'",
+        "xmlns:p='v' xmlns='u'", "xmlns:p=''"];
+    let names = ["a", "p:a", "q:a", "xml:a"];
+    let attrs = ["", "b='1'", "p:b='1'", "q:b='1' p:b='2'", "xml:lang='en'", "b='1' p:b='1'"];
+    let mut out = Vec::new();
+    let total = n.max(1) * 400;
+    for _ in 0..total {
+        // a tree of up to 4 elements: shapes chain / fork
+        let k = 1 + rng.below(4);
+        let mut el = Vec::new();
+        for _ in 0..k {
+            el.push((rng.pick(&names).to_string(), rng.pick(&decls).to_string(), rng.pick(&attrs).to_string()));
+        }
+        let open = |e: &(String, String, String)| format!("<{} {} {}>", e.0, e.1, e.2);
+        let close = |e: &(String, String, String)| format!("</{}>", e.0);
+        let text = match (k, rng.below(3)) {
+            (1, _) => format!("{}{}", open(&el[0]), close(&el[0])),
+            (2, _) => format!("{}{}{}{}", open(&el[0]), open(&el[1]), close(&el[1]), close(&el[0])),
+            (3, 0) => format!("{}{}{}{}{}{}", open(&el[0]), open(&el[1]), open(&el[2]), close(&el[2]), close(&el[1]), close(&el[0])),
+            (3, _) => format!("{}{}{}{}{}{}", open(&el[0]), open(&el[1]), close(&el[1]), open(&el[2]), close(&el[2]), close(&el[0])),
+            (_, 0) => format!("{}{}{}{}{}{}{}{}", open(&el[0]), open(&el[1]), open(&el[2]), open(&el[3]), close(&el[3]), close(&el[2]), close(&el[1]), close(&el[0])),
+            (_, 1) => format!("{}{}{}{}{}{}{}{}", open(&el[0]), open(&el[1]), open(&el[2]), close(&el[2]), close(&el[1]), open(&el[3]), close(&el[3]), close(&el[0])),
+            _ => format!("{}{}{}{}{}{}{}{}", open(&el[0]), open(&el[1]), close(&el[1]), open(&el[2]), open(&el[3]), close(&el[3]), close(&el[2]), close(&el[0])),
+        };
+        out.push(case(false, text));
+    }
+    out
+}
+
+pub fn gen(name: &str, rng: &mut Rng, n: usize, _args: &[String]) -> Vec<Case> {
+    match name {
+        "entities" => g_entities(rng, n),
+        "entity-boundary" => g_entity_boundary(rng, n),
+        "exotic" => g_exotic(rng, n),
+        "pieces2-text" => g_pieces2(rng, n, false),
+        "pieces2-attr" => g_pieces2(rng, n, true),
+        "ns" => g_ns(rng, n),
+        _ => {
+            eprintln!("unknown generator {}", name);
+            std::process::exit(2);
+        }
+    }
+}
+
+// ------------------------------------------------------------------------------------------
+// Commands that evaluate a relational / metamorphic oracle on the implementation itself.
+// Input: CASE lines on stdin. Output: one `VERDICT <id> ok|FAIL <what> | <hex input>` per check.
+
+fn read_cases() -> Vec<(String, bool, u32, String)> {
+    let stdin = std::io::stdin();
+    let mut v = Vec::new();
+    for line in stdin.lock().lines() {
+        let line = line.unwrap();
+        let f: Vec<&str> = line.split(' ').collect();
+        if f.len() >= 5 && f[0] == "CASE" {
+            if let Ok(t) = String::from_utf8(unhex(f[4])) {
+                v.push((f[1].to_string(), f[2] == "1", f[3].parse().unwrap(), t));
+            }
+        }
+    }
+    v
+}
+
+fn opts(dtd: bool, limit: u32) -> ParsingOptions {
+    ParsingOptions { allow_dtd: dtd, nodes_limit: limit }
+}
+
+/// Canonical content of a document without ranges and storage kinds.
+pub fn content(doc: &Document) -> String {
+    let mut o = String::new();
+    for n in doc.descendants() {
+        let tn = n.tag_name();
+        write!(
+            o,
+            "{}|{:?}|{:?}|{:?}|{:?}|{:?}|{:?}|",
+            n.id().get(),
+            n.node_type(),
+            n.parent().map(|p| p.id().get()),
+            tn.namespace(),
+            tn.name(),
+            n.pi().map(|p| (p.target, p.value)),
+            if n.is_text() || n.is_comment() { n.text() } else { None },
+        )
+        .unwrap();
+        for a in n.attributes() {
+            write!(o, "A{:?}:{:?}={:?};", a.namespace(), a.name(), a.value()).unwrap();
+        }
+        for ns in n.namespaces() {
+            write!(o, "N{:?}={:?};", ns.name(), ns.uri()).unwrap();
+        }
+        o.push('\n');
+    }
+    o
+}
+
+fn result_str(r: &Result<Document, roxmltree::Error>) -> String {
+    match r {
+        Ok(d) => format!("ok\n{}", content(d)),
+        Err(e) => format!("err {:?}", e),
+    }
+}
+
+fn verdict(out: &mut impl Write, id: &str, ok: bool, what: &str, inputs: &[&str]) {
+    if ok {
+        writeln!(out, "VERDICT {} ok", id).unwrap();
+    } else {
+        let hx: Vec<String> = inputs.iter().map(|t| hex(t.as_bytes())).collect();
+        writeln!(out, "VERDICT {} FAIL {} | {}", id, what.replace('\n', "\\n"), hx.join(" ")).unwrap();
+    }
+}
+
+fn guarded<T>(f: impl FnOnce() -> T) -> Option<T> {
+    std::panic::catch_unwind(std::panic::AssertUnwindSafe(f)).ok()
+}
+
+/// C15: the four relations between the unlimited parse and the limited ones.
+fn cmd_limits(seed: u64) {
+    let mut rng = Rng(seed ^ 0x15);
+    let stdout = std::io::stdout();
+    let mut out = std::io::BufWriter::new(stdout.lock());
+    for (id, dtd, _, t) in read_cases() {
+        let r = guarded(|| {
+            let mut fails: Vec<String> = Vec::new();
+            let unl = Document::parse_with_options(&t, opts(dtd, u32::MAX));
+            let n = unl.as_ref().map(|d| d.descendants().count() as u32).unwrap_or(3);
+            let mut lims = vec![0, 1, 2, n.saturating_sub(1), n, n + 1, u32::MAX, u32::MAX - 1];
+            for _ in 0..3 {
+                lims.push(rng.below(2 * n as usize + 2) as u32);
+            }
+            let base = result_str(&unl);
+            for l in lims {
+                let r = Document::parse_with_options(&t, opts(dtd, l));
+                match (&unl, &r) {
+                    (Ok(_), Ok(d)) => {
+                        let m = d.descendants().count() as u32;
+                        if m > l {
+                            fails.push(format!("limit {}: {} nodes", l, m));
+                        }
+                        if l < n {
+                            fails.push(format!("limit {} < N={} but parse succeeded", l, n));
+                        }
+                        if result_str(&r) != base {
+                            fails.push(format!("limit {}: document differs from the unlimited one", l));
+                        }
+                    }
+                    (Ok(_), Err(e)) => {
+                        if l >= n {
+                            fails.push(format!("limit {} >= N={} but failed with {:?}", l, n, e));
+                        } else if !matches!(e, roxmltree::Error::NodesLimitReached) {
+                            fails.push(format!("limit {} < N={}: error {:?} instead of NodesLimitReached", l, n, e));
+                        }
+                    }
+                    (Err(_), Ok(_)) => fails.push(format!("unlimited parse fails but limit {} succeeds", l)),
+                    (Err(_), Err(_)) => {}
+                }
+            }
+            fails
+        });
+        match r {
+            Some(f) if f.is_empty() => verdict(&mut out, &id, true, "", &[]),
+            Some(f) => verdict(&mut out, &id, false, &f.join("; "), &[&t]),
+            None => verdict(&mut out, &id, false, "panic", &[&t]),
+        }
+    }
+}
+
+/// C16: allow_dtd false vs true; Document::parse vs parse_with_options(default).
+fn cmd_dtdpairs() {
+    let stdout = std::io::stdout();
+    let mut out = std::io::BufWriter::new(stdout.lock());
+    for (id, _, limit, t) in read_cases() {
+        let r = guarded(|| {
+            let mut fails: Vec<String> = Vec::new();
+            let off = Document::parse_with_options(&t, opts(false, limit));
+            let on = Document::parse_with_options(&t, opts(true, limit));
+            let (so, sn) = (result_str(&off), result_str(&on));
+            let detected = matches!(off, Err(roxmltree::Error::DtdDetected));
+            if !detected && so != sn {
+                fails.push("allow_dtd=false result is neither DtdDetected nor equal to the allow_dtd=true result".into());
+            }
+            if !t.contains("<!DOCTYPE") && so != sn {
+                fails.push("no '<!DOCTYPE' in the input but the results differ".into());
+            }
+            if detected && !t.contains("<!DOCTYPE") {
+                fails.push("DtdDetected without '<!DOCTYPE' in the input".into());
+            }
+            let d = ParsingOptions::default();
+            if d.allow_dtd || d.nodes_limit != u32::MAX {
+                fails.push(format!("default options are {:?}", d));
+            }
+            let p = Document::parse(&t);
+            let q = Document::parse_with_options(&t, ParsingOptions::default());
+            if result_str(&p) != result_str(&q) {
+                fails.push("Document::parse differs from parse_with_options(default)".into());
+            }
+            if let Ok(doc) = &p {
+                let total: usize = doc
+                    .descendants()
+                    .map(|n| if n.is_text() { n.text().map(|s| s.len()).unwrap_or(0) } else { 0 } + n.attributes().map(|a| a.value().len()).sum::<usize>())
+                    .sum();
+                if total > t.len() {
+                    fails.push(format!("default options: content {} bytes > input {} bytes", total, t.len()));
+                }
+                // a DOCTYPE-looking prolog must have been refused
+            }
+            // an accepted document under default options has no DOCTYPE declaration in its prolog
+            fails
+        });
+        match r {
+            Some(f) if f.is_empty() => verdict(&mut out, &id, true, "", &[]),
+            Some(f) => verdict(&mut out, &id, false, &f.join("; "), &[&t]),
+            None => verdict(&mut out, &id, false, "panic", &[&t]),
+        }
+    }
+}
+
+/// C13 / C14: prefixing prolog white space shifts every range / error position accordingly.
+fn cmd_shift() {
+    let stdout = std::io::stdout();
+    let mut out = std::io::BufWriter::new(stdout.lock());
+    for (id, dtd, limit, t) in read_cases() {
+        if t.starts_with('\u{feff}') || t.starts_with("<?xml ") {
+            // white space may not precede a BOM / an XML declaration
+            continue;
+        }
+        let r = guarded(|| {
+            let mut fails: Vec<String> = Vec::new();
+            let base = Document::parse_with_options(&t, opts(dtd, limit));
+            for k in 1..=5usize {
+                for (ws, is_nl) in [(" ", false), ("\n", true)] {
+                    let pre = ws.repeat(k);
+                    let t2 = format!("{}{}", pre, t);
+                    let sh = Document::parse_with_options(&t2, opts(dtd, limit));
+                    match (&base, &sh) {
+                        (Ok(a), Ok(b)) => {
+                            if content(a) != content(b) {
+                                fails.push(format!("k={} content differs", k));
+                            }
+                            #[cfg(feature = "rox-positions")]
+                            for (x, y) in a.descendants().zip(b.descendants()) {
+                                let (rx, ry) = (x.range(), y.range());
+                                let expect = if x.is_root() { (0, rx.end + k) } else { (rx.start + k, rx.end + k) };
+                                if (ry.start, ry.end) != expect {
+                                    fails.push(format!("k={} node {} range {:?} -> {:?}", k, x.id().get(), rx, ry));
+                                }
+                                for (p, q) in x.attributes().zip(y.attributes()) {
+                                    let sh = |r: std::ops::Range<usize>| (r.start + k, r.end + k);
+                                    if sh(p.range()) != (q.range().start, q.range().end)
+                                        || sh(p.range_qname()) != (q.range_qname().start, q.range_qname().end)
+                                        || sh(p.range_value()) != (q.range_value().start, q.range_value().end)
+                                    {
+                                        fails.push(format!("k={} attribute range of node {}", k, x.id().get()));
+                                    }
+                                }
+                            }
+                        }
+                        (Err(e1), Err(e2)) => {
+                            let (p1, p2) = (e1.pos(), e2.pos());
+                            let s1 = format!("{:?}", e1);
+                            let s2 = format!("{:?}", e2);
+                            let strip = |s: &str| s.split("TextPos").next().unwrap_or("").to_string();
+                            if strip(&s1) != strip(&s2) {
+                                fails.push(format!("k={} error changed: {} -> {}", k, s1, s2));
+                            } else if s1.contains("TextPos") {
+                                let expect = if is_nl {
+                                    (p1.row + k as u32, p1.col)
+                                } else if p1.row == 1 {
+                                    (p1.row, p1.col + k as u32)
+                                } else {
+                                    (p1.row, p1.col)
+                                };
+                                if (p2.row, p2.col) != expect {
+                                    fails.push(format!("k={} {:?}: position {}:{} -> {}:{} (expected {}:{})", k, ws, p1.row, p1.col, p2.row, p2.col, expect.0, expect.1));
+                                }
+                            }
+                        }
+                        (a, b) => fails.push(format!("k={} acceptance changed: {} -> {}", k, a.is_ok(), b.is_ok())),
+                    }
+                }
+            }
+            fails
+        });
+        match r {
+            Some(f) if f.is_empty() => verdict(&mut out, &id, true, "", &[]),
+            Some(f) => verdict(&mut out, &id, false, &f[..f.len().min(3)].join("; "), &[&t]),
+            None => verdict(&mut out, &id, false, "panic", &[&t]),
+        }
+    }
+}
+
+/// C13: shape of the source slice each range designates.
+#[cfg(feature = "rox-positions")]
+fn cmd_shapes() {
+    let stdout = std::io::stdout();
+    let mut out = std::io::BufWriter::new(stdout.lock());
+    for (id, dtd, limit, t) in read_cases() {
+        let r = guarded(|| {
+            let mut fails: Vec<String> = Vec::new();
+            let doc = match Document::parse_with_options(&t, opts(dtd, limit)) {
+                Ok(d) => d,
+                Err(_) => return fails,
+            };
+            let has_dtd = t.contains("<!DOCTYPE");
+            for n in doc.descendants() {
+                let r = n.range();
+                let Some(sl) = t.get(r.clone()) else {
+                    fails.push(format!("node {} range {:?} is not a valid slice", n.id().get(), r));
+                    continue;
+                };
+                // nodes that came out of an entity value have ranges inside the DTD
+                let direct = !has_dtd || r.start >= t.find("]>").map(|x| x + 2).unwrap_or(0);
+                match n.node_type() {
+                    roxmltree::NodeType::Root => {
+                        if r != (0..t.len()) {
+                            fails.push(format!("root range {:?}", r));
+                        }
+                    }
+                    roxmltree::NodeType::Comment => {
+                        if sl != format!("<!--{}-->", n.text().unwrap_or("")) {
+                            fails.push(format!("comment slice {:?}", sl));
+                        }
+                    }
+                    roxmltree::NodeType::PI => {
+                        let pi = n.pi().unwrap();
+                        if !(sl.starts_with(&format!("<?{}", pi.target)) && sl.ends_with("?>")) {
+                            fails.push(format!("PI slice {:?}", sl));
+                        }
+                    }
+                    roxmltree::NodeType::Element => {
+                        if !(sl.starts_with('<') && sl.ends_with('>')) {
+                            fails.push(format!("element slice {:?}", &sl[..sl.len().min(40)]));
+                        }
+                        let name_ok = {
+                            let rest = &sl[1..];
+                            let q = rest.split(|c: char| c.is_ascii_whitespace() || c == '>' || c == '/').next().unwrap_or("");
+                            q == n.tag_name().name() || q.ends_with(&format!(":{}", n.tag_name().name()))
+                        };
+                        if !name_ok {
+                            fails.push(format!("element slice does not start with its name: {:?}", &sl[..sl.len().min(40)]));
+                        }
+                        for a in n.attributes() {
+                            let (ar, aq, av) = (a.range(), a.range_qname(), a.range_value());
+                            if !(r.start <= ar.start && ar.end <= r.end) {
+                                fails.push(format!("attribute range {:?} outside element {:?}", ar, r));
+                            }
+                            let within = aq.end - aq.start < 65535 && av.start.saturating_sub(aq.end) < 255;
+                            if within {
+                                let q = t.get(aq.clone()).unwrap_or("?");
+                                if !(q == a.name() || q.ends_with(&format!(":{}", a.name()))) {
+                                    fails.push(format!("range_qname slice {:?} for attribute {}", q, a.name()));
+                                }
+                                let quote = t.as_bytes().get(av.start.wrapping_sub(1)).copied();
+                                if !(quote == Some(b'"') || quote == Some(b'\'')) || t.as_bytes().get(av.end).copied() != quote || ar.end != av.end + 1 {
+                                    fails.push(format!("range_value {:?} is not delimited by quotes", av));
+                                }
+                                if let roxmltree::StringStorage::Borrowed(b) = a.value_storage() {
+                                    if t.get(av.clone()) != Some(*b) {
+                                        fails.push("borrowed attribute value differs from its range_value slice".into());
+                                    }
+                                }
+                            }
+                        }
+                    }
+                    roxmltree::NodeType::Text => {
+                        if let Some(roxmltree::StringStorage::Borrowed(b)) = n.text_storage() {
+                            if !(sl == *b || sl == format!("<![CDATA[{}]]>", b)) {
+                                // a merged run keeps the range of its first fragment; borrowed means single fragment
+                                fails.push(format!("borrowed text {:?} vs slice {:?}", b, sl));
+                            }
+                        }
+                    }
+                }
+                if direct && !has_dtd {
+                    if let Some(p) = n.parent() {
+                        let pr = p.range();
+                        if !(pr.start <= r.start && r.end <= pr.end) {
+                            fails.push(format!("node {} range {:?} outside parent {:?}", n.id().get(), r, pr));
+                        }
+                    }
+                    if let Some(s) = n.prev_sibling() {
+                        if s.range().end > r.start {
+                            fails.push(format!("node {} overlaps its previous sibling", n.id().get()));
+                        }
+                    }
+                }
+            }
+            fails
+        });
+        match r {
+            Some(f) if f.is_empty() => verdict(&mut out, &id, true, "", &[]),
+            Some(f) => verdict(&mut out, &id, false, &f[..f.len().min(3)].join("; "), &[&t]),
+            None => verdict(&mut out, &id, false, "panic", &[&t]),
+        }
+    }
+}
+
+#[cfg(not(feature = "rox-positions"))]
+fn cmd_shapes() {}
+
+/// C08: ill-forming edits of accepted documents must be rejected.
+#[cfg(not(feature = "rox-positions"))]
+fn cmd_illform(_seed: u64) {}
+
+/// C08: ill-forming edits of accepted documents must be rejected.
+#[cfg(feature = "rox-positions")]
+fn cmd_illform(seed: u64) {
+    let mut rng = Rng(seed ^ 0x08);
+    let stdout = std::io::stdout();
+    let mut out = std::io::BufWriter::new(stdout.lock());
+    for (id, dtd, limit, t) in read_cases() {
+        let doc = match guarded(|| Document::parse_with_options(&t, opts(dtd, limit)).map(|d| {
+            // collect facts needed by the edits
+            let mut els: Vec<(usize, usize, String, bool)> = Vec::new(); // start, end, qname as written, has end tag
+            #[cfg(feature = "rox-positions")]
+            for n in d.descendants().filter(|n| n.is_element()) {
+                let r = n.range();
+                if let Some(sl) = t.get(r.clone()) {
+                    let q: String = sl[1..].chars().take_while(|c| !(c.is_ascii_whitespace() || *c == '>' || *c == '/')).collect();
+                    els.push((r.start, r.end, q, !sl.ends_with("/>")));
+                }
+            }
+            let root = d.root_element().range();
+            (els, root)
+        })) {
+            Some(Ok(x)) => x,
+            _ => continue,
+        };
+        let (els, root) = doc;
+        if t.contains("<!DOCTYPE") && t.contains('&') {
+            // edits inside entity-expanded content need their own catalogue (entity-boundary family)
+        }
+        let direct: Vec<&(usize, usize, String, bool)> = els.iter().filter(|e| e.0 >= root.start && e.1 <= root.end).collect();
+        let mut edits: Vec<(String, String)> = Vec::new();
+        let ins = |at: usize, s: &str| format!("{}{}{}", &t[..at], s, &t[at..]);
+        // stray / missing / mismatched end tags
+        for e in direct.iter().filter(|e| e.3) {
+            let close_start = t[..e.1].rfind("</").unwrap_or(e.1);
+            if close_start > e.0 {
+                edits.push(("missing end tag".into(), format!("{}{}", &t[..close_start], &t[e.1..])));
+                edits.push(("mismatched end tag".into(), format!("{}</{}x>{}", &t[..close_start], e.2, &t[e.1..])));
+                edits.push(("stray end tag".into(), ins(close_start, "</zz>")));
+                edits.push(("end tag closed twice".into(), ins(e.1, &format!("</{}>", e.2))));
+            }
+        }
+        // several roots, character data / CDATA / references outside the root
+        edits.push(("second root element".into(), ins(root.end, "<r2/>")));
+        edits.push(("second root element before".into(), ins(root.start, "<r0/>")));
+        edits.push(("text after the root".into(), ins(root.end, "t")));
+        edits.push(("text before the root".into(), ins(root.start, "t")));
+        edits.push(("CDATA after the root".into(), ins(root.end, "<![CDATA[x]]>")));
+        edits.push(("reference after the root".into(), ins(root.end, "&#65;")));
+        edits.push(("no root element".into(), format!("{}{}", &t[..root.start], &t[root.end..])));
+        if !t[..root.start].trim_start_matches('\u{feff}').is_empty() {
+            edits.push(("repeated / misplaced XML declaration".into(), ins(root.start, "<?xml version='1.0'?>")));
+        }
+        edits.push(("XML declaration inside content".into(), ins(root.end, "<?xml version='1.0'?>")));
+        for e in direct.iter() {
+            let name_end = e.0 + 1 + e.2.len();
+            edits.push(("duplicate attribute".into(), ins(name_end, " dupx='1' dupx='2'")));
+            edits.push(("duplicate attribute by expanded name".into(), ins(name_end, " xmlns:n1='urn:same' xmlns:n2='urn:same' n1:a='1' n2:a='2'")));
+            edits.push(("duplicate namespace declaration".into(), ins(name_end, " xmlns:dd='u' xmlns:dd='v'")));
+            edits.push(("undeclared attribute prefix".into(), ins(name_end, " undeclared9:a='1'")));
+            edits.push(("'<' in attribute value".into(), ins(name_end, " lt='a<b'")));
+            edits.push(("unterminated attribute value".into(), ins(name_end, " q='a")));
+            edits.push(("attribute without value".into(), ins(name_end, " novalue")));
+            edits.push(("attribute without space".into(), ins(name_end, " s1='a's2='b'")));
+            edits.push(("xmlns prefix bound".into(), ins(name_end, " xmlns:xmlns='u'")));
+            edits.push(("xml prefix rebound".into(), ins(name_end, " xmlns:xml='urn:other'")));
+            edits.push(("xml URI on another prefix".into(), ins(name_end, " xmlns:o='http://www.w3.org/XML/1998/namespace'")));
+            edits.push(("xml URI as default".into(), ins(name_end, " xmlns='http://www.w3.org/XML/1998/namespace'")));
+            edits.push(("xmlns URI declared".into(), ins(name_end, " xmlns:o='http://www.w3.org/2000/xmlns/'")));
+            edits.push(("malformed reference in attribute".into(), ins(name_end, " m='a&b'")));
+            edits.push(("undefined entity in attribute".into(), ins(name_end, " m='&undefined9;'")));
+            edits.push(("non-Char in attribute".into(), ins(name_end, " m='\u{1}'")));
+            edits.push(("char ref to non-Char".into(), ins(name_end, " m='&#1;'")));
+            if e.3 {
+                // positions inside the content of an element with an end tag: right after the start tag
+                if let Some(gt) = t[e.0..e.1].find('>') {
+                    let at = e.0 + gt + 1;
+                    if at <= e.1 && !t[e.0..at].contains("<!") {
+                        edits.push(("']]>' in text".into(), ins(at, "a]]>b")));
+                        edits.push(("'--' in comment".into(), ins(at, "<!-- a--b -->")));
+                        edits.push(("comment ending in '-'".into(), ins(at, "<!-- a --->")));
+                        edits.push(("malformed reference in text".into(), ins(at, "a & b")));
+                        edits.push(("undefined entity in text".into(), ins(at, "&undefined9;")));
+                        edits.push(("non-Char in text".into(), ins(at, "\u{FFFE}")));
+                        edits.push(("non-Char in text (C0)".into(), ins(at, "\u{8}")));
+                        edits.push(("bad element name".into(), ins(at, "<1a/>")));
+                        edits.push(("bad name char".into(), ins(at, "<a\u{d7}b/>")));
+                        edits.push(("two colons in a name".into(), ins(at, "<a:b:c/>")));
+                        edits.push(("undeclared element prefix".into(), ins(at, "<undeclared9:a/>")));
+                        edits.push(("xmlns as element prefix".into(), ins(at, "<xmlns:a/>")));
+                        edits.push(("PI without target".into(), ins(at, "<? x?>")));
+                        edits.push(("stray '<'".into(), ins(at, "< ")));
+                        edits.push(("DOCTYPE in content".into(), ins(at, "<!DOCTYPE x>")));
+                        edits.push(("unclosed element".into(), ins(at, "<unclosed9>")));
+                    }
+                }
+            }
+        }
+        // every truncation before the end of the root element (sampled when long)
+        let cuts: Vec<usize> = t.char_indices().map(|(i, _)| i).filter(|i| *i < root.end && *i > 0).collect();
+        for c in &cuts {
+            if cuts.len() > 60 && !rng.chance(60, cuts.len() as u64) {
+                continue;
+            }
+            edits.push((format!("truncation at {}", c), t[..*c].to_string()));
+        }
+        let mut bad: Option<(String, String)> = None;
+        let mut nrun = 0;
+        for (what, t2) in &edits {
+            nrun += 1;
+            let r = guarded(|| Document::parse_with_options(t2, opts(true, limit)).is_ok());
+            match r {
+                Some(false) => {}
+                Some(true) => {
+                    bad = Some((format!("accepted after edit: {}", what), t2.clone()));
+                    break;
+                }
+                None => {
+                    bad = Some((format!("panic after edit: {}", what), t2.clone()));
+                    break;
+                }
+            }
+        }
+        match bad {
+            None => {
+                writeln!(out, "VERDICT {} ok {}", id, nrun).unwrap();
+            }
+            Some((what, t2)) => verdict(&mut out, &id, false, &what, &[&t2]),
+        }
+    }
+}
+
+/// C07: a reference to an internal general entity behaves like its replacement text in place.
+#[cfg(feature = "rox-positions")]
+fn cmd_hoist(seed: u64) {
+    let mut rng = Rng(seed ^ 0x07);
+    let stdout = std::io::stdout();
+    let mut out = std::io::BufWriter::new(stdout.lock());
+    for (id, _, limit, t) in read_cases() {
+        if t.contains("<!DOCTYPE") {
+            continue;
+        }
+        // candidate substrings of the inline document: ranges of child nodes and attribute values
+        let cands = guarded(|| {
+            let doc = Document::parse_with_options(&t, opts(false, limit)).ok()?;
+            let re = doc.root_element();
+            let mut c: Vec<(usize, usize, bool)> = Vec::new(); // start, end, in attribute
+            for n in re.descendants() {
+                if n != re && !n.is_text() {
+                    c.push((n.range().start, n.range().end, false));
+                }
+                if n.is_text() {
+                    // a literal text run written without references, CDATA or CR: the slice is the run
+                    let r = n.range();
+                    if let Some(sl) = t.get(r.clone()) {
+                        if Some(sl) == n.text() && !sl.contains('\r') && sl.len() >= 1 {
+                            let a = r.start + rng.below(sl.len());
+                            let a = (a..=r.end).find(|i| t.is_char_boundary(*i)).unwrap_or(r.start);
+                            let b = a + rng.below(r.end - a + 1);
+                            let b = (b..=r.end).find(|i| t.is_char_boundary(*i)).unwrap_or(r.end);
+                            c.push((a, b, false));
+                        }
+                    }
+                }
+                for a in n.attributes() {
+                    let v = a.range_value();
+                    if let Some(sl) = t.get(v.clone()) {
+                        if !sl.contains('&') && !sl.contains('\r') && a.range_qname().len() < 60000 {
+                            c.push((v.start, v.end, true));
+                            if sl.len() > 1 {
+                                let a1 = (v.start + 1..v.end).find(|i| t.is_char_boundary(*i)).unwrap_or(v.start);
+                                c.push((a1, v.end, true));
+                            }
+                        }
+                    }
+                }
+            }
+            Some(c)
+        });
+        let Some(Some(cands)) = cands else { continue };
+        if cands.is_empty() {
+            continue;
+        }
+        // choose up to 3 disjoint candidates
+        let mut chosen: Vec<(usize, usize, bool)> = Vec::new();
+        for _ in 0..6 {
+            let c = *rng.pick(&cands);
+            if chosen.iter().all(|d| c.1 <= d.0 || d.1 <= c.0) && chosen.len() < 3 {
+                // replacement text restrictions of the supported subset: no '<' / '&' / CR produced by
+                // a character reference; a literal '&' only as part of a complete reference
+                let sl = &t[c.0..c.1];
+                // a character reference inside an entity value is expanded when the entity is declared
+                // (XML 1.0 4.5): in an attribute value the referenced TAB/LF then is a literal that gets
+                // normalised, unlike the same reference written in place. Such pieces are not hoisted.
+                let bad_ref = sl.contains("&#") || sl.contains("&#60;") || sl.contains("&#x3c;") || sl.contains("&#x3C;") || sl.contains("&#38;")
+                    || sl.contains("&#x26;") || sl.contains("&#13;") || sl.contains("&#xD;") || sl.contains("&#xd;")
+                    || sl.contains("&lt;") || sl.contains("&amp;");
+                if !bad_ref && !sl.contains('%') {
+                    chosen.push(c);
+                }
+            }
+        }
+        if chosen.is_empty() {
+            continue;
+        }
+        chosen.sort();
+        let mut body = String::new();
+        let mut decls = String::new();
+        let mut last = 0;
+        for (k, c) in chosen.iter().enumerate() {
+            let sl = &t[c.0..c.1];
+            let q = if sl.contains('\'') { '"' } else { '\'' };
+            if sl.contains('\'') && sl.contains('"') {
+                body.push_str(&t[last..c.1]);
+                last = c.1;
+                continue;
+            }
+            // nested: route through a second entity sometimes; declare twice / unused sometimes
+            if rng.chance(1, 3) {
+                decls.push_str(&format!("<!ENTITY h{}i {}{}{}><!ENTITY h{} {}&h{}i;{}>", k, q, sl, q, k, q, k, q));
+            } else {
+                decls.push_str(&format!("<!ENTITY h{} {}{}{}>", k, q, sl, q));
+            }
+            if rng.chance(1, 4) {
+                decls.push_str(&format!("<!ENTITY h{} 'second declaration is ignored'><!ENTITY unused{} 'u'>", k, k));
+            }
+            body.push_str(&t[last..c.0]);
+            body.push_str(&format!("&h{};", k));
+            last = c.1;
+        }
+        body.push_str(&t[last..]);
+        // the DOCTYPE goes right before the root element
+        let r = guarded(|| {
+            let doc = Document::parse_with_options(&t, opts(false, limit)).ok()?;
+            Some(doc.root_element().range().start)
+        });
+        let Some(Some(root_start)) = r else { continue };
+        let shift: isize = body.len() as isize - t.len() as isize;
+        let _ = shift;
+        // position of the root start in `body`: nothing before the root was replaced
+        let hoisted = format!("{}<!DOCTYPE d [{}]>{}", &body[..root_start], decls, &body[root_start..]);
+        let r = guarded(|| {
+            let a = Document::parse_with_options(&t, opts(true, limit));
+            let b = Document::parse_with_options(&hoisted, opts(true, limit));
+            (result_str(&a), result_str(&b))
+        });
+        match r {
+            Some((a, b)) if a == b => verdict(&mut out, &id, true, "", &[]),
+            Some((a, b)) => {
+                let la: Vec<&str> = a.lines().collect();
+                let lb: Vec<&str> = b.lines().collect();
+                let k = la.iter().zip(lb.iter()).position(|(x, y)| x != y).unwrap_or(la.len().min(lb.len()));
+                verdict(
+                    &mut out,
+                    &id,
+                    false,
+                    &format!("inline vs hoisted differ: {:?} vs {:?}", la.get(k), lb.get(k)),
+                    &[&t, &hoisted],
+                );
+            }
+            None => verdict(&mut out, &id, false, "panic", &[&t, &hoisted]),
+        }
+    }
+}
+
+#[cfg(not(feature = "rox-positions"))]
+fn cmd_hoist(_seed: u64) {}
+
+/// C19 (history part): repeated and interleaved parses in one process give the same results.
+fn cmd_repeat() {
+    let cases = read_cases();
+    let stdout = std::io::stdout();
+    let mut out = std::io::BufWriter::new(stdout.lock());
+    let first: Vec<Option<String>> = cases
+        .iter()
+        .map(|(_, dtd, limit, t)| guarded(|| result_str(&Document::parse_with_options(t, opts(*dtd, *limit)))))
+        .collect();
+    // reversed order, then each twice in a row
+    for pass in 0..2 {
+        let order: Vec<usize> = if pass == 0 { (0..cases.len()).rev().collect() } else { (0..cases.len()).collect() };
+        for i in order {
+            let (id, dtd, limit, t) = &cases[i];
+            for _ in 0..(pass + 1) {
+                let again = guarded(|| result_str(&Document::parse_with_options(t, opts(*dtd, *limit))));
+                if again != first[i] {
+                    verdict(&mut out, id, false, "result depends on earlier parses", &[t]);
+                }
+            }
+        }
+    }
+    for (id, _, _, _) in &cases {
+        writeln!(out, "VERDICT {} ok", id).unwrap();
+    }
+}
+
+/// C20: threads sharing one document observe what a single thread observes.
+fn cmd_threads(seed: u64) {
+    fn assert_send_sync<T: Send + Sync>() {}
+    assert_send_sync::<Document>();
+    assert_send_sync::<Node>();
+    assert_send_sync::<roxmltree::Attribute>();
+    assert_send_sync::<roxmltree::Attributes>();
+    assert_send_sync::<roxmltree::AxisIter>();
+    assert_send_sync::<roxmltree::Children>();
+    assert_send_sync::<roxmltree::Descendants>();
+    assert_send_sync::<roxmltree::NamespaceIter>();
+    assert_send_sync::<roxmltree::StringStorage>();
+    assert_send_sync::<roxmltree::Error>();
+    assert_send_sync::<roxmltree::Namespace>();
+    assert_send_sync::<roxmltree::ExpandedName>();
+    assert_send_sync::<roxmltree::NodeId>();
+    assert_send_sync::<roxmltree::TextPos>();
+    let stdout = std::io::stdout();
+    let mut out = std::io::BufWriter::new(stdout.lock());
+    for (id, dtd, limit, t) in read_cases() {
+        let Ok(doc) = Document::parse_with_options(&t, opts(dtd, limit)) else { continue };
+        let mut single = String::new();
+        crate::dump::api_doc(&mut single, &doc);
+        let ids: Vec<u32> = doc.descendants().map(|n| n.id().get()).collect();
+        let per_node = |i: u32| {
+            let mut o = String::new();
+            crate::dump::api_node(&mut o, &doc, doc.get_node(NodeId::new(i)).unwrap());
+            o
+        };
+        let expect: Vec<String> = ids.iter().map(|i| per_node(*i)).collect();
+        let bad = std::sync::atomic::AtomicUsize::new(0);
+        std::thread::scope(|s| {
+            for th in 0..16u64 {
+                let ids = &ids;
+                let expect = &expect;
+                let bad = &bad;
+                let doc = &doc;
+                let root = doc.root();
+                s.spawn(move || {
+                    let mut rng = Rng(seed ^ th.wrapping_mul(0x9E37));
+                    for _ in 0..(ids.len() * 2).max(4) {
+                        let k = rng.below(ids.len());
+                        let mut o = String::new();
+                        crate::dump::api_node(&mut o, doc, doc.get_node(NodeId::new(ids[k])).unwrap());
+                        if o != expect[k] || root.id().get() != 0 {
+                            bad.fetch_add(1, std::sync::atomic::Ordering::Relaxed);
+                        }
+                    }
+                });
+            }
+        });
+        let mut after = String::new();
+        crate::dump::api_doc(&mut after, &doc);
+        let n = bad.load(std::sync::atomic::Ordering::Relaxed);
+        if n > 0 || after != single {
+            verdict(&mut out, &id, false, &format!("{} thread observations differ from the single-thread dump", n), &[&t]);
+        } else {
+            verdict(&mut out, &id, true, "", &[]);
+        }
+    }
+}
+
+/// C17: equality / ordering / hashing matrices over nodes of up to three live documents.
+fn cmd_ord(seed: u64) {
+    use std::collections::hash_map::DefaultHasher;
+    use std::hash::{Hash, Hasher};
+    let mut rng = Rng(seed ^ 0x17);
+    let cases = read_cases();
+    let stdout = std::io::stdout();
+    let mut out = std::io::BufWriter::new(stdout.lock());
+    let mut i = 0;
+    while i < cases.len() {
+        let k = 1 + rng.below(3);
+        let group: Vec<&(String, bool, u32, String)> = cases[i..(i + k).min(cases.len())].iter().collect();
+        i += k;
+        let docs: Vec<Document> = group.iter().filter_map(|(_, dtd, limit, t)| Document::parse_with_options(t, opts(*dtd, *limit)).ok()).collect();
+        if docs.is_empty() {
+            continue;
+        }
+        // also a second parse of the first text: same content, different Document value
+        let twin = Document::parse_with_options(&group[0].3, opts(group[0].1, group[0].2)).ok();
+        let mut all: Vec<&Document> = docs.iter().collect();
+        if let Some(t) = &twin {
+            all.push(t);
+        }
+        // rank of each document's address
+        let mut addrs: Vec<usize> = all.iter().map(|d| *d as *const Document as usize).collect();
+        let sorted = {
+            let mut s = addrs.clone();
+            s.sort();
+            s
+        };
+        for a in addrs.iter_mut() {
+            *a = sorted.iter().position(|x| x == a).unwrap();
+        }
+        let mut nodes: Vec<(usize, Node)> = Vec::new();
+        for (di, d) in all.iter().enumerate() {
+            let n = d.descendants().count();
+            for nd in d.descendants() {
+                if n <= 6 || rng.chance(6, n as u64) {
+                    nodes.push((addrs[di], nd));
+                }
+            }
+        }
+        nodes.truncate(24);
+        let id = format!("ord-{}", group[0].0);
+        writeln!(out, "BEGIN {}", id).unwrap();
+        let desc: Vec<String> = nodes.iter().map(|(r, n)| format!("{}:{}", r, n.id().get())).collect();
+        writeln!(out, "ORD nodes {}", desc.join(",")).unwrap();
+        let h = |n: &Node| {
+            let mut s = DefaultHasher::new();
+            n.hash(&mut s);
+            s.finish()
+        };
+        for (_, a) in &nodes {
+            let eq: String = nodes.iter().map(|(_, b)| if a == b { '1' } else { '0' }).collect();
+            let cmp: String = nodes
+                .iter()
+                .map(|(_, b)| match a.cmp(b) {
+                    std::cmp::Ordering::Less => '<',
+                    std::cmp::Ordering::Equal => '=',
+                    std::cmp::Ordering::Greater => '>',
+                })
+                .collect();
+            let pc: String = nodes
+                .iter()
+                .map(|(_, b)| match a.partial_cmp(b) {
+                    Some(std::cmp::Ordering::Less) => '<',
+                    Some(std::cmp::Ordering::Equal) => '=',
+                    Some(std::cmp::Ordering::Greater) => '>',
+                    None => '?',
+                })
+                .collect();
+            let hs: String = nodes.iter().map(|(_, b)| if a != b || h(a) == h(b) { '1' } else { '0' }).collect();
+            writeln!(out, "ORD row eq={} cmp={} pcmp={} hashok={}", eq, cmp, pc, hs).unwrap();
+        }
+        let mut idx: Vec<usize> = (0..nodes.len()).collect();
+        idx.sort_by(|x, y| nodes[*x].1.cmp(&nodes[*y].1));
+        let order: Vec<String> = idx.iter().map(|x| x.to_string()).collect();
+        writeln!(out, "ORD sorted {}", order.join(",")).unwrap();
+        // get_node(id()) == node, for every sampled node
+        let rt = nodes.iter().all(|(_, n)| n.document().get_node(n.id()) == Some(*n));
+        writeln!(out, "ORD roundtrip {}", rt as u8).unwrap();
+        writeln!(out, "END {}", id).unwrap();
+    }
+}
+
+/// Scale families, implementation only (C01 / C09 / C10): one family member per invocation so that
+/// an abort or a hang is attributed to it by the caller.
+fn cmd_scale(args: &[String]) {
+    let fam = args[0].as_str();
+    let n: usize = args[1].parse().unwrap();
+    let worker = std::thread::Builder::new()
+        .stack_size(1024 * 1024)
+        .spawn({
+            let fam = fam.to_string();
+            move || {
+                let (text, dtd): (String, bool) = match fam.as_str() {
+                    "nest" => (format!("{}{}", "<a>".repeat(n), "</a>".repeat(n)), false),
+                    "nest-unclosed" => ("<a>".repeat(n), false),
+                    "nest-attr" => (format!("{}{}", "<a b='c'>".repeat(n), "</a>".repeat(n)), false),
+                    "siblings" => (format!("<r>{}</r>", "<a/>".repeat(n)), false),
+                    "attrs" => (format!("<r {}/>", (0..n).map(|i| format!("a{}='v'", i)).collect::<Vec<_>>().join(" ")), false),
+                    "nsdecls" => (format!("<r {}/>", (0..n).map(|i| format!("xmlns:p{}='u{}'", i, i)).collect::<Vec<_>>().join(" ")), false),
+                    "text" => (format!("<r>{}</r>", "lorem ipsum \u{e9}\n".repeat(n)), false),
+                    "text-cr" => (format!("<r>{}</r>", "a\r\nb&amp;\r".repeat(n)), false),
+                    "comments" => (format!("<r>{}</r>", "<!--c-->".repeat(n)), false),
+                    "entity-nest" => {
+                        let mut d = String::from("<!DOCTYPE r [<!ENTITY e0 '<x>t</x>'>");
+                        for k in 1..=n {
+                            d.push_str(&format!("<!ENTITY e{} '<y>&e{};</y>'>", k, k - 1));
+                        }
+                        (format!("{}]><r>&e{};</r>", d, n), true)
+                    }
+                    "toprefs" => (format!("<!DOCTYPE r [<!ENTITY e 'x'>]><r>{}</r>", "&e;".repeat(n)), true),
+                    "nonascii-lines" => (format!("<r>{}</r>", "\u{e9}\u{1F600}\n".repeat(n)), false),
+                    _ => (String::new(), false),
+                };
+                let t0 = std::time::Instant::now();
+                let r = std::panic::catch_unwind(|| Document::parse_with_options(&text, opts(dtd, u32::MAX)));
+                let res = match &r {
+                    Ok(Ok(d)) => format!("ok nodes={}", d.descendants().len()),
+                    Ok(Err(e)) => format!("err {:?}", e),
+                    Err(_) => "panic".to_string(),
+                };
+                println!("SCALE {} {} len={} parse={} ms={}", fam, n, text.len(), res, t0.elapsed().as_millis());
+                // read operations on the big document (C10)
+                if let Ok(Ok(doc)) = &r {
+                    let t1 = std::time::Instant::now();
+                    let rr = std::panic::catch_unwind(|| {
+                        let mut acc = 0usize;
+                        let last = doc.descendants().last().unwrap();
+                        acc += last.ancestors().count();
+                        acc += doc.root_element().children().count();
+                        acc += doc.root_element().children().rev().count();
+                        acc += doc.descendants().rev().count();
+                        acc += last.prev_siblings().count() + doc.root().first_children().count() + doc.root().last_children().count();
+                        for p in [0, 1, text.len() / 2, text.len() / 2 + 1, text.len(), text.len() + 2] {
+                            acc += doc.text_pos_at(p).row as usize;
+                        }
+                        acc += last.parent_element().map(|_| 1).unwrap_or(0);
+                        acc += doc.root_element().attributes().count() + doc.root_element().namespaces().count();
+                        acc += doc.root_element().lookup_prefix("u1").map(|_| 1).unwrap_or(0);
+                        // Debug / Display into a discarding sink (the Debug text is quadratic in depth)
+                        struct Sink(usize, usize);
+                        impl std::fmt::Write for Sink {
+                            fn write_str(&mut self, s: &str) -> std::fmt::Result {
+                                self.0 += s.len();
+                                if self.0 > self.1 { Err(std::fmt::Error) } else { Ok(()) }
+                            }
+                        }
+                        let mut sink = Sink(0, 400_000_000);
+                        let _ = std::fmt::write(&mut sink, format_args!("{:?}", doc));
+                        let mut sink2 = Sink(0, 400_000_000);
+                        let _ = std::fmt::write(&mut sink2, format_args!("{:?} {:?}", last, doc.root_element()));
+                        acc + sink.0
+                    });
+                    println!(
+                        "SCALEAPI {} {} {} ms={}",
+                        fam,
+                        n,
+                        match rr {
+                            Ok(a) => format!("ok {}", a),
+                            Err(_) => "panic".into(),
+                        },
+                        t1.elapsed().as_millis()
+                    );
+                }
+            }
+        })
+        .unwrap();
+    worker.join().unwrap();
+}
+
+/// C06: up to 2^16 distinct namespaces resolve correctly; one more is an error.
+fn cmd_nsscale(args: &[String]) {
+    let n: usize = args[0].parse().unwrap();
+    let mode = args.get(1).map(|s| s.as_str()).unwrap_or("default");
+    let mut t = String::from("<r>");
+    for i in 0..n {
+        match mode {
+            "default" => t.push_str(&format!("<e xmlns='u{}'><c/></e>", i)),
+            _ => t.push_str(&format!("<p:e xmlns:p='u{}' p:a='1'><p:c/></p:e>", i)),
+        }
+    }
+    t.push_str("</r>");
+    let r = std::panic::catch_unwind(|| Document::parse(&t));
+    match r {
+        Err(_) => println!("NSSCALE {} {} panic", n, mode),
+        Ok(Err(e)) => println!("NSSCALE {} {} err {:?}", n, mode, e),
+        Ok(Ok(doc)) => {
+            let mut bad = 0usize;
+            let mut first_bad = String::new();
+            for (i, e) in doc.root_element().children().enumerate() {
+                let want = format!("u{}", i);
+                let c = e.first_child().unwrap();
+                let ok = e.tag_name().namespace() == Some(want.as_str())
+                    && c.tag_name().namespace() == Some(want.as_str())
+                    && e.namespaces().count() == 1
+                    && e.namespaces().all(|ns| ns.uri() == want && ns.name() != Some("xml"))
+                    && (mode == "default" || e.attributes().all(|a| a.namespace() == Some(want.as_str())))
+                    && (if mode == "default" { e.default_namespace() == Some(want.as_str()) } else { e.lookup_namespace_uri(Some("p")) == Some(want.as_str()) });
+                if !ok {
+                    bad += 1;
+                    if first_bad.is_empty() {
+                        first_bad = format!("element {}: tag ns {:?}, namespaces {:?}", i, e.tag_name().namespace(), e.namespaces().map(|n| (n.name(), n.uri().to_string())).collect::<Vec<_>>());
+                    }
+                }
+            }
+            println!("NSSCALE {} {} ok bad={} {}", n, mode, bad, first_bad);
+        }
+    }
+}
+
+pub fn command(name: &str, args: &[String]) {
+    std::panic::set_hook(Box::new(|_| {}));
+    let seed: u64 = args.get(0).and_then(|x| x.parse().ok()).unwrap_or(1);
+    match name {
+        "limits" => cmd_limits(seed),
+        "dtdpairs" => cmd_dtdpairs(),
+        "shift" => cmd_shift(),
+        "shapes" => cmd_shapes(),
+        "illform" => cmd_illform(seed),
+        "hoist" => cmd_hoist(seed),
+        "repeat" => cmd_repeat(),
+        "threads" => cmd_threads(seed),
+        "ord" => cmd_ord(seed),
+        "scale" => cmd_scale(args),
+        "nsscale" => cmd_nsscale(args),
+        _ => {
+            eprintln!("unknown command {}", name);
+            std::process::exit(2);
+        }
+    }
 }
